@@ -11,6 +11,7 @@ import CV.Gen.Tables
 import CV.Cpp
 import CV.Lit
 import CV.Calc
+import CV.CallGraph
 namespace CV
 
 structure LoadedProg where
@@ -251,6 +252,19 @@ def handle (st : DState) (line : String) : DState × String :=
     | some ts =>
       (st, match Calc.evalTokens ts with | .ok v => "ok " ++ toString v | .err => "err" | .panic => "panic")
     | none => (st, "badreq")
+  -- inuse <interrupt names hex, comma separated | -> | f=c1,c2 | g= ...   (names hex)
+  | "inuse" :: ints :: rest =>
+    let names := fun (s : String) => if s == "-" || s.isEmpty then some [] else (s.splitOn ",").mapM unhexStr
+    let entries := (rest.filter (· != "|")).mapM fun t =>
+      match t.splitOn "=" with
+      | [f, cs] => do let f ← unhexStr f; let cs ← names cs; some (f, cs)
+      | _ => none
+    match names ints, entries with
+    | some ints, some tree =>
+      (match CallGraph.inUse tree ints with
+       | some res => (st, "ok " ++ " ".intercalate ((res.map hexStr).toArray.qsort (· < ·)).toList)
+       | none => (st, "diverge"))
+    | _, _ => (st, "badreq")
   -- branch <line tokens>
   | "branch" :: toks =>
     match codeOfTokens toks with
